@@ -95,9 +95,10 @@ def decodeItems : Nat → Bytes → Option (List Item)
 end
 
 /-- strict top-level decoding: exactly one item, nothing left over.
-The input length bounds the nesting depth, so it is enough fuel. -/
+One nesting level costs at least one byte and at most two units of fuel, so twice the input
+length is always enough fuel (proved: `Props.C07.decodeAll_encode`). -/
 def decodeAll (b : Bytes) : Option Item :=
-  match decode (b.length + 1) b with
+  match decode (2 * b.length) b with
   | some (it, []) => some it
   | _ => none
 
